@@ -297,6 +297,12 @@ def expand_locals(f, e, limit=16):
         if isinstance(x, ast.IfExp) and depth < 4:
             return alts(x.body, depth + 1) + alts(x.orelse, depth + 1)
         if isinstance(x, ast.Name) and x.id not in params and depth < 4:
+            # a module-level constant (bound once to a literal)
+            mod = f.module
+            if x.id in mod.assigns and isinstance(mod.assigns[x.id], ast.Constant) and len(mod.assign_nodes.get(x.id, [])) == 1 and \
+                    not any(isinstance(s, ast.Assign) and any(is_name(t, x.id) for t in s.targets) for s in own_nodes(f.node)):
+                return [mod.assigns[x.id]]
+        if isinstance(x, ast.Name) and x.id not in params and depth < 4:
             defs = [s for s in own_nodes(f.node) if isinstance(s, ast.Assign) and any(is_name(t, x.id) for t in s.targets)]
             aug = [s for s in own_nodes(f.node) if isinstance(s, (ast.AugAssign, ast.For)) and x.id in {y.id for y in ast.walk(s.target) if isinstance(y, ast.Name)}]
             if defs and not aug:
